@@ -28,6 +28,10 @@ VARIANTS = {
     # the project's own release flags (no LTO: irrelevant to behaviour here)
     "rel": dict(cc="gcc", cflags=["-O3", "-g", "-fno-semantic-interposition",
                                   "-ftls-model=initial-exec"], ldflags=[]),
+    # the shipped optimisation level without the frame pointer the other variants keep
+    # (-fno-omit-frame-pointer in COMMON): rbp is an ordinary callee-saved register for gcc here
+    "ship": dict(cc="gcc", cflags=["-O3", "-g", "-fno-semantic-interposition",
+                                   "-ftls-model=initial-exec", "-fomit-frame-pointer"], ldflags=[]),
     # libFuzzer objects
     "fuzz": dict(cc="clang", cflags=["-O1", "-g", "-fsanitize=fuzzer-no-link"] + SAN,
                  ldflags=SAN),
